@@ -129,6 +129,69 @@ b("benign-C02-local-spec-var", ["C02", "C04", "C14"], [(CACHE,
   "\t\tif _, ok := specs[d.GetSpec()]; !ok {\n\t\t\tspecs[d.GetSpec()] = struct{}{}\n\t\t\tedits.Append(d.GetSpec().edits())\n\t\t}",
   "\t\tspec := d.GetSpec()\n\t\tif _, seen := specs[spec]; !seen {\n\t\t\tspecs[spec] = struct{}{}\n\t\t\tedits.Append(spec.edits())\n\t\t}")], "Spec held in a local variable")
 
+# ---------------------------------------------------------------- C03
+OCI = "pkg/cdi/oci.go"
+UNIX = "pkg/cdi/container-edits_unix.go"
+m("C03-hook-wrong-list", "C03", [(EDITS,
+  "\t\t\tspec.Hooks.CreateRuntime = append(spec.Hooks.CreateRuntime, ociHook)",
+  "\t\t\tspec.Hooks.CreateContainer = append(spec.Hooks.CreateContainer, ociHook)")], "createRuntime hooks land in the createContainer list")
+m("C03-rdt-needs-linux", "C03", [(EDITS,
+  "\tif e.IntelRdt != nil {\n\t\t// The specgen",
+  "\tif e.IntelRdt != nil && spec.Linux != nil {\n\t\t// The specgen")], "RDT edit silently dropped when the OCI spec has no linux section yet")
+m("C03-sort-before-add", "C03", [(EDITS,
+  "\t\tfor _, m := range e.Mounts {\n\t\t\tspecgen.RemoveMount(m.ContainerPath)\n\t\t\tspecgen.AddMount((&Mount{m}).toOCI())\n\t\t}\n\t\tsortMounts(&specgen)",
+  "\t\tsortMounts(&specgen)\n\t\tfor _, m := range e.Mounts {\n\t\t\tspecgen.RemoveMount(m.ContainerPath)\n\t\t\tspecgen.AddMount((&Mount{m}).toOCI())\n\t\t}")], "mounts sorted before the new ones are added")
+m("C03-less-nonstrict", "C03", [(EDITS,
+  "\treturn m.parts(i) < m.parts(j)",
+  "\treturn m.parts(i) <= m.parts(j)")], "non-strict Less: equal-depth mounts are reordered")
+m("C03-parts-noclean", "C03", [(EDITS,
+  "strings.Count(filepath.Clean(m[i].Destination), string(os.PathSeparator))",
+  "strings.Count(m[i].Destination, string(os.PathSeparator))")], "depth counted on the uncleaned destination (trailing or doubled slashes)")
+m("C03-gid-from-uid", "C03", [(EDITS,
+  "\t\t\tif gid := spec.Process.User.GID; gid > 0 {",
+  "\t\t\tif gid := spec.Process.User.UID; gid > 0 {")], "gid default taken from the process uid")
+m("C03-add-before-fillcheck", "C03", [(EDITS,
+  "\t\terr := dn.fillMissingInfo()\n\t\tif err != nil {\n\t\t\treturn err\n\t\t}\n\t\tdev := dn.toOCI()",
+  "\t\terr := dn.fillMissingInfo()\n\t\tdev := dn.toOCI()\n\t\tspecgen.AddDevice(dev)\n\t\tif err != nil {\n\t\t\treturn err\n\t\t}")], "node added before the fill-in error is looked at")
+m("C03-fill-swap-majmin", "C03", [(UNIX,
+  "\t\td.Major = major\n\t\td.Minor = minor",
+  "\t\td.Major = minor\n\t\td.Minor = major")], "host major/minor crossed when filled in")
+m("C03-fill-type-always", "C03", [(UNIX,
+  "\tif d.Type == \"\" {\n\t\td.Type = deviceType\n\t} else {",
+  "\tif d.Type == \"\" || d.Type == \"u\" {\n\t\td.Type = deviceType\n\t} else {")], "a declared type 'u' is overwritten by the host type")
+m("C03-cgroup-deny", "C03", [(EDITS,
+  "specgen.AddLinuxResourcesDevice(true, dev.Type,",
+  "specgen.AddLinuxResourcesDevice(dev.Type == \"c\", dev.Type,")], "block devices get a deny rule")
+m("C03-stat-chr-as-b", "C03", [(UNIX,
+  "\tcase unix.S_IFBLK:\n\t\tdevType = blockDevice\n\tcase unix.S_IFCHR:\n\t\tdevType = charDevice",
+  "\tcase unix.S_IFCHR:\n\t\tdevType = blockDevice\n\tcase unix.S_IFBLK:\n\t\tdevType = charDevice")], "block/char crossed in the host stat table")
+m("C03-touch-hostname", "C03", [(EDITS,
+  "\tif e.IntelRdt != nil {\n\t\t// The specgen",
+  "\tif spec.Hostname == \"\" && len(e.DeviceNodes) > 0 {\n\t\tspecgen.SetHostname(\"cdi\")\n\t}\n\tif e.IntelRdt != nil {\n\t\t// The specgen")], "Apply changes an unrelated part of the OCI spec")
+m("C03-hook-env-dropped", "C03", [(OCI,
+  "\t\tPath:    h.Path,\n\t\tArgs:    h.Args,\n\t\tEnv:     h.Env,",
+  "\t\tPath:    h.Path,\n\t\tArgs:    h.Args,")], "hook env not carried over")
+m("C03-remove-mount-hostpath", "C03", [(EDITS,
+  "\t\t\tspecgen.RemoveMount(m.ContainerPath)",
+  "\t\t\tspecgen.RemoveMount(m.HostPath)")], "the mount to replace is looked up by host path")
+b("benign-C03-no-removedevice", ["C03", "C14"], [(EDITS,
+  "\t\tspecgen.RemoveDevice(dev.Path)\n", "")], "AddDevice itself replaces a node with the same path")
+b("benign-C03-env-unguarded", ["C03", "C14"], [(EDITS,
+  "\tif len(e.Env) > 0 {\n\t\tspecgen.AddMultipleProcessEnv(e.Env)\n\t}",
+  "\tspecgen.AddMultipleProcessEnv(e.Env)")], "adding an empty env list is a no-op")
+b("benign-C03-access-else", ["C03", "C14"], [(EDITS,
+  "\t\t\taccess := node.Permissions\n\t\t\tif access == \"\" {\n\t\t\t\taccess = \"rwm\"\n\t\t\t}",
+  "\t\t\taccess := \"rwm\"\n\t\t\tif node.Permissions != \"\" {\n\t\t\t\taccess = node.Permissions\n\t\t\t}")], "same default written the other way round")
+b("benign-C03-index-loop", ["C03", "C14"], [(EDITS,
+  "\t\tfor _, m := range e.Mounts {\n\t\t\tspecgen.RemoveMount(m.ContainerPath)",
+  "\t\tfor i := 0; i < len(e.Mounts); i++ {\n\t\t\tm := e.Mounts[i]\n\t\t\tspecgen.RemoveMount(m.ContainerPath)")], "counted loop instead of range")
+b("benign-C03-switch-reordered", ["C03", "C14"], [(EDITS,
+  "\t\tcase PrestartHook:\n\t\t\tspecgen.AddPreStartHook(ociHook)\n\t\tcase PoststartHook:\n\t\t\tspecgen.AddPostStartHook(ociHook)\n",
+  "\t\tcase PoststartHook:\n\t\t\tspecgen.AddPostStartHook(ociHook)\n\t\tcase PrestartHook:\n\t\t\tspecgen.AddPreStartHook(ociHook)\n")], "switch cases in another order")
+b("benign-C03-slicestable", ["C03"], [(EDITS,
+  "\tsort.Stable(orderedMounts(mounts))",
+  "\tsort.SliceStable(mounts, func(i, j int) bool { return orderedMounts(mounts).Less(i, j) })")], "another stable sort with the same order")
+
 
 def emit():
     os.makedirs(os.path.join(VERIF, "mutants"), exist_ok=True)
